@@ -66,6 +66,7 @@ pub struct PublicInput {
 
 impl StarkProof {
     const COMPONENT_HEIGHT: u32 = 16;
+    const N_DYNAMIC_PARAMS: usize = 340;
     pub fn stark_config(&self) -> anyhow::Result<StarkConfig> {
         let stark = &self.proof_parameters.stark;
         let n_verifier_friendly_commitment_layers =
@@ -153,7 +154,9 @@ impl StarkProof {
         dynamic_params: &Option<BTreeMap<String, u32>>,
     ) -> anyhow::Result<u32> {
         let consts = self.public_input.layout.get_dynamics_or_consts(dynamic_params);
-        let effective_component_height = Self::COMPONENT_HEIGHT * consts.cpu_component_step;
+        let effective_component_height = Self::COMPONENT_HEIGHT
+            .checked_mul(consts.cpu_component_step)
+            .ok_or(anyhow::anyhow!("Invalid cpu component step"))?;
         log2_if_power_of_2(
             effective_component_height
                 .checked_mul(self.public_input.n_steps)
@@ -165,7 +168,9 @@ impl StarkProof {
         &self,
         dynamic_params: &Option<BTreeMap<String, u32>>,
     ) -> anyhow::Result<u32> {
-        Ok(self.log_trace_domain_size(dynamic_params)? + self.proof_parameters.stark.log_n_cosets)
+        self.log_trace_domain_size(dynamic_params)?
+            .checked_add(self.proof_parameters.stark.log_n_cosets)
+            .ok_or(anyhow::anyhow!("Invalid log_n_cosets"))
     }
     fn layer_log_sizes(
         &self,
@@ -191,6 +196,11 @@ impl StarkProof {
             Self::continuous_page_headers(&public_input.public_memory, z, alpha)?;
         let main_page = Self::main_page(&public_input.public_memory)?;
         let dynamic_params = public_input.dynamic_params.unwrap_or_default();
+        // The verifier's DynamicParams is built positionally from exactly N_DYNAMIC_PARAMS values.
+        anyhow::ensure!(
+            dynamic_params.is_empty() || dynamic_params.len() == Self::N_DYNAMIC_PARAMS,
+            "Invalid number of dynamic params"
+        );
         let memory_segments = Builtin::sort_segments(public_input.memory_segments)?
             .into_iter()
             .map(|s| SegmentInfo { begin_addr: s.begin_addr, stop_ptr: s.stop_ptr })
